@@ -103,11 +103,16 @@ def compare(case, r, out):
     tol = 1e-12 if any(c01._uses_pow(rx) or rx["type"] == "general" for rx in case["spec"]["reactions"]) else 0.0
     gi = got[len(want) - sum(1 + len(d) for d in r["deriv"]):]; wi = want[len(want) - sum(1 + len(d) for d in r["deriv"]):]
     if len(gi) != len(wi): return "derivative rows differ in length"
-    for a, b in zip(gi, wi):
-        if a == b: continue
-        if a == "D" or b == "D": return "desync"
-        fa, fb = float.fromhex(a), float.fromhex(b)
-        if not (abs(fa - fb) <= tol * max(abs(fa), abs(fb)) + 1e-300): return "derivative: model %r implementation %r" % (fa, fb)
+    nsp, nrx = r["shape"]; k = 0
+    for pi_, (d, rates) in enumerate(zip(r["deriv"], r["rates"])):
+        k += 1   # the "D" token
+        for i in range(nsp):
+            a, b = gi[k], wi[k]; k += 1
+            if a == b: continue
+            fa, fb = float.fromhex(a), float.fromhex(b)
+            # cancellation: the tolerance is relative to the size of the summed terms, not of the sum
+            scale = sum(abs((r["S"][i * nrx + j] + r["Sd"][i * nrx + j]) * rates[j]) for j in range(nrx))
+            if not (abs(fa - fb) <= tol * scale): return "derivative: model %r implementation %r (scale %r)" % (fa, fb, scale)
     return None
 
 def oracle(case, r):
